@@ -633,11 +633,12 @@ impl Aggregator {
         );
         let previous_effective = self.effective;
         self.recompute_effective();
-        // An apply can only ELEVATE the effective level (a fresh/renewed
-        // lease adds to the max), never lower it below the prior effective.
+        // A fresh lease can only ELEVATE the effective level (it adds to the
+        // max). A renewal replaces the client's previous level and may lower
+        // it: when that lease was the maximum, the effective level follows.
         debug_assert!(
-            self.effective >= previous_effective,
-            "lease_apply must not lower the effective detail level"
+            is_renewal || self.effective >= previous_effective,
+            "a fresh lease must not lower the effective detail level"
         );
         debug_assert!(
             self.effective >= self.configured,
